@@ -935,6 +935,15 @@ func init() {
 			flatStmts(s, fd.Body.List, &body)
 			e.stringList("randnBody", "statements of `stringx.Randn`", body)
 		}
+		// NewScript: the wrapper through which the two package-level scripts are built
+		if fd := s.findFunc("core/stores/redis/redis.go", "NewScript"); fd == nil {
+			e.errors = append(e.errors, "function NewScript not found in core/stores/redis/redis.go")
+			e.stringList("newScriptBody", "MISSING", []string{"MISSING"})
+		} else {
+			var body []string
+			flatStmts(s, fd.Body.List, &body)
+			e.stringList("newScriptBody", "statements of `redis.NewScript`", body)
+		}
 		// the fields NewRedisLock sets (id must be a fresh random string per instance, key the caller's key)
 		if fd := s.findFunc(f, "NewRedisLock"); fd == nil {
 			e.errors = append(e.errors, "function NewRedisLock not found in "+f)
